@@ -226,7 +226,9 @@ def snapshot(obj):
         return [np.array(t, copy=True) for t in obj.tensors]
     if isinstance(obj, NoiseModel):
         return [(p["name"], list(p["sites"]), p["strength"] if not isinstance(p["strength"], dict) else dict(p["strength"]),
-                 np.array(p["matrix"], copy=True) if "matrix" in p else None) for p in obj.processes]
+                 np.array(p["matrix"], copy=True) if "matrix" in p else None,
+                 [np.array(f, copy=True) for f in p["factors"]] if "factors" in p else None) for p in obj.processes] + [
+                ("scheduled", j.get("name"), list(j.get("sites", [])), j.get("time")) for j in getattr(obj, "scheduled_jumps", [])]
     if isinstance(obj, qiskit.QuantumCircuit):
         return [(ci.operation.name, tuple(float(x) for x in ci.operation.params), tuple(obj.find_bit(q).index for q in ci.qubits)) for ci in obj.data]
     return copy.deepcopy(obj)
@@ -313,6 +315,14 @@ def real_oracle(args, notes=None):
     nm = NoiseModel([{"name": "pauli_x", "sites": [0], "strength": 0.05}, {"name": "crosstalk_xx", "sites": [0, 1], "strength": 0.02}])
     if args.get("noise") == "pairs-only":  # correlated noise only: no one-site process anywhere, the pairs reach the last site
         nm = NoiseModel([{"name": "crosstalk_zz", "sites": [1, 2], "strength": 0.5}, {"name": "crosstalk_xy", "sites": [0, 2], "strength": 0.3}])
+    if args.get("noise") == "with-zero":  # switched-off channels (strength exactly 0) next to live ones, as in a strength sweep
+        nm = NoiseModel([{"name": "lowering", "sites": [0], "strength": 0.0}, {"name": "pauli_z", "sites": [0], "strength": 0.1},
+                         {"name": "crosstalk_xx", "sites": [0, 1], "strength": 0.0}, {"name": "crosstalk_zy", "sites": [0, 2], "strength": 0.0},
+                         {"name": "pauli_x", "sites": [2], "strength": 0.05}])
+    if args.get("noise") == "drawn":  # static disorder: strengths drawn once per run from a distribution
+        nm = NoiseModel([{"name": "pauli_x", "sites": [0], "strength": {"distribution": "normal", "mean": 0.05, "std": 0.01}},
+                         {"name": "pauli_z", "sites": [1], "strength": {"distribution": "truncated_normal", "mean": 0.0, "std": 0.0}},
+                         {"name": "lowering", "sites": [2], "strength": 0.0}])
     qc = QuantumCircuit(3)
     qc.h(0); qc.cx(0, 1); qc.rzz(0.4, 1, 2); qc.rx(0.3, 2)  # noqa: E702
     H = MPO.ising(3, 1.0, 0.6)
@@ -325,12 +335,12 @@ def real_oracle(args, notes=None):
     def mk():
         if kind == "strong":
             return StrongSimParams([Observable("z", 0), Observable("x", 2)], num_traj=ntraj, show_progress=False)
-        if kind in ("analog", "mcwf"):
+        if kind in ("analog", "mcwf", "lindblad"):
             return AnalogSimParams([Observable("z", 0), Observable("x", 2)], elapsed_time=0.2, dt=0.1, num_traj=ntraj,
-                                   order=args.get("order", 2), solver="MCWF" if kind == "mcwf" else "TJM", show_progress=False)
+                                   order=args.get("order", 2), solver={"mcwf": "MCWF", "lindblad": "Lindblad"}.get(kind, "TJM"), show_progress=False)
         return WeakSimParams(shots=ntraj, show_progress=False)
 
-    op = H if kind in ("analog", "mcwf") else qc
+    op = H if kind in ("analog", "mcwf", "lindblad") else qc
     before = [snapshot(x) for x in (op, nm, st)]
     p = mk()
     # history: the requested sequence on the shared object
@@ -341,7 +351,7 @@ def real_oracle(args, notes=None):
             simulator.run(st, op, p, nm if noisy else None, parallel=False)
         finally:
             np.random.default_rng = real_rng
-        n_exec = ntraj if noisy else 1
+        n_exec = ntraj if (noisy and kind != "lindblad") else 1
         if noisy and kind in ("analog", "mcwf"):
             # every trajectory starts from the state that was passed in: the t = 0 entries do not depend on the trajectory index
             for o in p.observables:
@@ -350,7 +360,7 @@ def real_oracle(args, notes=None):
                     return (f"{kind}: the value at t = 0 of <{o.gate.name}> on site {o.sites} differs between the trajectories of one run "
                             f"({tr[:, 0].tolist()}): they do not all start from the state that was passed in")
         inner = [c for c in rng_calls if not c[0] and not c[1]]
-        if noisy and kind != "weak" and len(inner) != n_exec and notes is not None:
+        if noisy and kind not in ("weak", "lindblad") and len(inner) != n_exec and notes is not None:
             # the mechanism of the model (one OS-seeded generator per noisy trajectory), not the property itself: a serial run could
             # share one generator; reported as a broken correspondence, the pool oracle below looks for repeated trajectories
             notes.append(f"{kind}: {len(inner)} OS-seeded generators were created for {n_exec} trajectories (one per trajectory in the model)")
@@ -397,6 +407,10 @@ def search(ctx):
     plan.append(dict(kind="analog", hist=[True], order=1))
     plan += [dict(kind="analog", hist=[True], order=2, noise="pairs-only"), dict(kind="analog", hist=[True, True], order=1, noise="pairs-only"),
              dict(kind="strong", hist=[True], noise="pairs-only"),
+             dict(kind="strong", hist=[True], noise="with-zero"), dict(kind="analog", hist=[True, False], noise="with-zero"),
+             dict(kind="mcwf", hist=[True], noise="with-zero"), dict(kind="weak", hist=[True], noise="with-zero"),
+             dict(kind="lindblad", hist=[True], noise="with-zero"), dict(kind="lindblad", hist=[True, True]),
+             dict(kind="analog", hist=[True], noise="drawn"), dict(kind="strong", hist=[True], noise="drawn"),
              dict(kind="mcwf", hist=[True], asym=True), dict(kind="mcwf", hist=[False, True, False], asym=True), dict(kind="analog", hist=[True, False], asym=True), dict(kind="strong", hist=[False], asym=True)]
     if not ctx.quick:
         for _ in range(20):
